@@ -124,7 +124,7 @@ func c13Judge(c c13Case, w ast.Word) (class, detail string, nontrivial bool) {
 
 func c13Sources(thorough bool) []string {
 	names := []string{"v", "1", "10", "@", "*", "#", "?", "0", "-", "!"}
-	words := []string{"", "w", "$y", "${z:=s}", "'q q'", "a b", "\"$@\"", "*"}
+	words := []string{"", "w", "$y", "${z:=s}", "'q q'", "a b", "\"$@\"", "*", "${z:+a}${z:=b}"}
 	pats := []string{"*", "?", "a*", "'*'", "b", "[a-c]", "$y", "*b", "\\*", "é", "${z:=s}", "${q?}", "["}
 	_ = thorough
 	var inner []string
